@@ -191,6 +191,21 @@ func deref(cur any) (any, string, bool) {
 				return nil, rNilPointer, thru
 			}
 			cur = *p
+		case *map[any]any:
+			if p == nil {
+				return nil, rNilPointer, thru
+			}
+			cur = *p
+		case *map[any]string:
+			if p == nil {
+				return nil, rNilPointer, thru
+			}
+			cur = *p
+		case *map[skey]string:
+			if p == nil {
+				return nil, rNilPointer, thru
+			}
+			cur = *p
 		case *bool:
 			if p == nil {
 				return nil, rNilPointer, thru
@@ -232,6 +247,9 @@ func index(cur any, st Step) (any, string, string) {
 	}
 	k := st.K
 	if v, o, kind, isIntMap := indexIntMap(cur, st, pfx); isIntMap {
+		return v, o, kind
+	}
+	if v, o, kind, isAnyMap := indexAnyMap(cur, st, pfx); isAnyMap {
 		return v, o, kind
 	}
 	for _, rk := range rowKinds {
@@ -528,6 +546,9 @@ func validSteps(cur any) []string {
 	if rk, ok := rowKindOf(cur); ok {
 		return rk.valid
 	}
+	if keys, ok := anyMapKeys(cur); ok {
+		return keys
+	}
 	cur, out, _ := deref(cur)
 	if out != reach {
 		return nil
@@ -638,6 +659,9 @@ func invalidSteps(cur any, avoid func(id string) bool) []string {
 	}
 	if rk, ok := rowKindOf(cur); ok {
 		return rk.invalid
+	}
+	if _, ok := anyMapKeys(cur); ok {
+		return []string{"zz", "nope", "7"}
 	}
 	if n, ok := seqLen(cur); ok {
 		return []string{strconv.Itoa(n), strconv.Itoa(n + 3), "-1", "-2", "x", "99999999999999999999"}
